@@ -397,6 +397,7 @@ func extractC07() *lean {
 		}
 	}
 	l.def("configureWiring", "List String", leanStrList(wiring), wiring)
+	c07Iblt(l)
 	return l
 }
 
